@@ -143,7 +143,7 @@ Lemma decode_rect_good : preserves decode_rect_body.
 Proof.
   intros d G. unfold decode_rect_body. rd.
   destruct (negb (wrap_i8 x =? s2_encodingVersion) && negb (failed d0)); [apply good_set_err; auto|].
-  do 4 rd. exact G4.
+  do 4 rd. destruct (negb (failed d4) && negb (rect_valid (mkrect x0 x1 x2 x3))); cbn [snd]; auto. now apply good_set_err.
 Qed.
 
 Lemma decode_cellid_good : preserves decode_cellid_body.
@@ -640,7 +640,7 @@ Proof. intros F. unfold read_bool, read_i8, read_u8. now rewrite read_le_failed.
 Lemma decode_rect_sticky d : failed d = true -> snd (decode_rect_body d) = d.
 Proof.
   intros F. unfold decode_rect_body, read_u8, read_u64. rewrite read_le_failed by auto. rewrite F.
-  rewrite andb_false_r. now rewrite !read_le_failed.
+  rewrite andb_false_r. rewrite !read_le_failed by auto. now rewrite F.
 Qed.
 
 Lemma decode_loop_finite bs l : decode_loop bs = Ok l -> Forall finite_point (l_vertices l).
@@ -665,6 +665,39 @@ Proof.
   - destruct (read_bool d3) as [oi d4]. destruct (read_u32 d4) as [dep d5]. destruct (decode_rect_body d5) as [b d6].
     cbn [fst snd]. intros _ <-. cbn [l_vertices]. now apply M.
 Qed.
+
+(** * A decoded Rect is valid (since 41c9631) *)
+Lemma decode_rect_valid bs r : decode_rect bs = Ok r -> rect_valid r = true.
+Proof.
+  intros H. apply run_ok_not_failed in H. destruct H as [F E]. revert F E.
+  unfold decode_rect_body.
+  destruct (read_u8 (dec_init bs)) as [v d0].
+  destruct (negb (wrap_i8 v =? s2_encodingVersion) && negb (failed d0)); cbn [fst snd].
+  { rewrite failed_set_err. discriminate. }
+  destruct (read_u64 d0) as [a d1]. destruct (read_u64 d1) as [b d2]. destruct (read_u64 d2) as [c d3]. destruct (read_u64 d3) as [e d4].
+  destruct (failed d4) eqn:F4; cbn [negb andb fst snd].
+  { intros F. rewrite F4 in F. discriminate. }
+  destruct (rect_valid (mkrect a b c e)) eqn:V; cbn [negb fst snd].
+  - intros _ <-. exact V.
+  - rewrite failed_set_err. discriminate.
+Qed.
+
+(** before 41c9631 any four doubles decoded; lat.lo = -Inf then made IntersectsCell panic in
+    big.Float.SetFloat64(NaN) *)
+Definition decode_rect_body_41c9631_old (d : dec) : rect * dec :=
+  let '(v, d) := read_u8 d in
+  if negb (wrap_i8 v =? s2_encodingVersion) && negb (failed d) then (zero_rect, set_err d) else
+  let '(a, d) := read_u64 d in
+  let '(b, d) := read_u64 d in
+  let '(c, d) := read_u64 d in
+  let '(e, d) := read_u64 d in
+  (mkrect a b c e, d).
+Definition rect_old_witness : list Z :=
+  [1; 0; 0; 0; 0; 0; 0; 240; 255; 140; 130; 107; 94; 78; 52; 185; 102; 0; 0; 0; 0; 0; 0; 240; 63; 232; 98; 171; 208; 155; 128; 241; 63].
+Lemma decode_usable_rect_old_refuted :
+  exists r, run decode_rect_body_41c9631_old rect_old_witness = Ok r /\ rect_valid r = false
+            /\ decode_rect rect_old_witness = Err.
+Proof. eexists. split; [vm_compute; reflexivity|]. split; vm_compute; reflexivity. Qed.
 
 (** * A decoded full polygon can be queried (since 54a5f02 it has its index)
     Before the repair initEdgesAndIndex returned early for the full polygon and left the index nil. *)
